@@ -49,10 +49,21 @@ func provKey(s *engine.Sources) string {
 func runC07(c *engine.Ctx) {
 	p := c.P
 	serve := fn(c, "pkg/util/vhost.HTTPReverseProxy.ServeHTTP")
-	inject := fn(c, "pkg/util/vhost.HTTPReverseProxy.injectRequestInfoToCtx")
 	checkAuth := method(c, "pkg/util/vhost", "HTTPReverseProxy", "CheckAuth")
 	getRC := method(c, "pkg/util/vhost", "HTTPReverseProxy", "GetRouteConfig")
-	if serve == nil || inject == nil || checkAuth == nil || getRC == nil {
+	if serve == nil || checkAuth == nil || getRC == nil {
+		return
+	}
+	// the function that selects the forwarding route: whichever vhost function calls GetRouteConfig on the serving
+	// path (injectRequestInfoToCtx on the confirmed tree, ServeHTTP itself when that helper is inlined)
+	var injects []*ssa.Function
+	for _, f := range p.RepoFuncs() {
+		if f.Pkg == serve.Pkg && len(engine.CallsTo(f, getRC)) > 0 {
+			injects = append(injects, f)
+		}
+	}
+	if len(injects) == 0 {
+		c.Missing("pkg/util/vhost.<route selection>", "no vhost function calls GetRouteConfig")
 		return
 	}
 
@@ -62,8 +73,10 @@ func runC07(c *engine.Ctx) {
 	for _, call := range engine.CallsTo(serve, checkAuth) {
 		args := engine.CallArgs(call) // recv, domain, location, routeUser, user, passwd
 		var fargs []ssa.Value
-		for _, fc := range engine.CallsTo(inject, getRC) {
-			fargs = engine.CallArgs(fc) // recv, domain, location, routeUser
+		for _, inject := range injects {
+			for _, fc := range engine.CallsTo(inject, getRC) {
+				fargs = engine.CallArgs(fc) // recv, domain, location, routeUser
+			}
 		}
 		if len(args) < 6 || len(fargs) < 4 {
 			c.Undecide("pkg/util/vhost.HTTPReverseProxy.ServeHTTP>route", call.Pos(), "cannot locate the route lookups")
@@ -679,6 +692,50 @@ func checkCredentialPlumbing(c *engine.Ctx, rule string) {
 				for _, sv := range nameStores(al, dst) {
 					n++
 					ss := provThroughCallers(sv, f, pkgFuncs...)
+					// a field of a parameter struct (a small "params" carrier): field-sensitive at the call sites —
+					// what the callers stored into that very field of the struct they pass
+					if root, path := engine.FieldPath(engine.Unwrap(sv)); len(path) == 1 {
+						pr, ok := root.(*ssa.Parameter)
+						if al, isAl := root.(*ssa.Alloc); isAl && !ok && al.Referrers() != nil {
+							// the parameter spilled into a local at entry (field selection on a struct parameter)
+							for _, r := range *al.Referrers() {
+								if st, isSt := r.(*ssa.Store); isSt && st.Addr == ssa.Value(al) {
+									if q, isP := st.Val.(*ssa.Parameter); isP {
+										pr, ok = q, true
+									}
+								}
+							}
+						}
+						if ok {
+							if fobj, _ := f.Object().(*types.Func); fobj != nil {
+								idx := -1
+								for i, q := range f.Params {
+									if q == pr {
+										idx = i
+									}
+								}
+								var viaStruct srcSet
+								for _, g := range pkgFuncs {
+									for _, cs := range engine.CallsToDeep(g, fobj) {
+										if idx < 0 || idx >= len(cs.Common().Args) {
+											continue
+										}
+										a := cs.Common().Args[idx]
+										if u, ok := a.(*ssa.UnOp); ok && u.Op == token.MUL {
+											if al, ok := u.X.(*ssa.Alloc); ok {
+												for _, fvv := range nameStores(al, path[0]) {
+													viaStruct = append(viaStruct, engine.Provenance(fvv, engine.ProvOpts{}))
+												}
+											}
+										}
+									}
+								}
+								if len(viaStruct) > 0 {
+									ss = viaStruct
+								}
+							}
+						}
+					}
 					good, bad := false, ""
 					for _, src := range ss {
 						for fv := range src.Fields {
